@@ -87,16 +87,23 @@ Fixpoint count_faults (s : bstate) (h : list bop) : nat :=
 
 (* cases: history, observed number of errors in Context.Result(), observed number of instructions
    in all functions, Main status, whether the recording printer ran, panicked *)
-Definition build_case := (list bop * nat * nat * nat * bool * bool)%type.
+Definition build_case := (list bop * list nat * nat * nat * nat * bool * bool)%type.   (* ops, error count after each op, ... *)
+Fixpoint faults_flagged (s : bstate) (h : list bop) (prev : nat) (after : list nat) : bool :=
+  match h, after with
+  | [], [] => true
+  | o :: r, a :: ar => Bool.eqb (is_fault s o) (Nat.ltb prev a) && faults_flagged (b_step s o) r a ar
+  | _, _ => false
+  end.
 Definition builder_agree (c : build_case) : bool :=
-  let '(h, errs, instrs, status, printed, panicked) := c in
+  let '(h, after, errs, instrs, status, printed, panicked) := c in
   let s := b_run h in
   negb panicked && Nat.eqb (b_errs s) errs && Nat.eqb (b_instrs s) instrs.
 (* the property on the implementation's outcome *)
 Definition builder_impl_ok (c : build_case) : bool :=
-  let '(h, errs, instrs, status, printed, panicked) := c in
+  let '(h, after, errs, instrs, status, printed, panicked) := c in
   let nf := count_faults b_init h in
   negb panicked
-  && (Nat.leb nf errs)                                       (* an error message for each builder-time fault *)
+  && faults_flagged b_init h 0 after                        (* each builder-time fault, and only a fault, adds an error message *)
+  && (Nat.leb nf errs)
   && Bool.eqb (Nat.eqb nf 0) (Nat.eqb errs 0)                 (* only valid requests: no error *)
   && (Nat.eqb errs 0 || (negb (Nat.eqb status 0) && negb printed)).   (* failure: non-zero status, no printer *)
